@@ -2,6 +2,13 @@
 
 # pid -> dict(category, text, note, technique, design_ref)
 CLAIMED = {
+    "C04": dict(
+        category="proof",
+        technique="Lean 4 whole-table theorems (decide +kernel) over the transition table and the executed effect traces of all 988 do_action inputs, regenerated from fsm.py every run, against a hand transcription of PS3.8 Tables 9-6..9-10",
+        text="Kernel-checked equality between (a) TRANSITION_TABLE as reflected from the code and PS3.8 Table 9-10, (b) the protocol effects and next state observed by executing the real StateMachine.do_action on every (event, state, role, data-variant) input with recording fakes and what Tables 9-6..9-9 prescribe (PDU kind with source/reason, indication, ARTIM start/stop/restart, transport close), (c) ACTIONS' declared next states. Exhaustive over the finite domain; any table edit or changed side effect breaks a theorem and the failing pair is reported by comparing the executed trace with the Lean spec through the driver.",
+        note="Trusted: Lean kernel; my transcription of PS3.8 (Spec/Ps38Fsm.lean, choices PS3.8 leaves open are listed there); the recording fakes of translate/fsm.py (socket, ARTIM, queues, DIMSE provider). Real sockets/timers are not exercised here (C05/C06 do that).",
+        design_ref="§5 C04",
+    ),
     "C28": dict(
         category="proof",
         technique="Lean 4 theorems over tables regenerated from status.py (translator) + exhaustive differential run of code_to_category vs the Lean model",
